@@ -28,4 +28,6 @@ TEXTS = {
          'note': KD},
  'C19': {'text': 'Decision-tree theorem: every correct comparison sort, run with the conflict-detecting less() of sortAdminNetpolsByPriority, reports every tie and every out-of-range priority for every n and every position (Lean, unbounded); insertion-fold checks for duplicate names / BANP; K-diff and P on generated inputs with 0..40 padding policies and the conflict at random positions, for list and diff.',
          'note': KD + ' sort.Slice being a correct deterministic comparison sort that inspects elements only through less() is the Go library contract (trusted).'},
+ 'C10': {'text': 'Executable Lean model of ingress_analyzer.go and getIngressAllowedConnections, and a Lean specification of the ingress-controller lines (Ingress/Route -> Service -> TCP container ports through targetPort, intersected with the policy verdict for an unlabeled pod in an unknown namespace) and of the blocked warnings; K-diff and P on generated worlds with Services, Ingresses and Routes.',
+         'note': KD + ' Route port.targetPort matching follows the tool (first service port whose name, number or targetPort equals it).'},
 }
